@@ -1,6 +1,7 @@
 package main
 
 import (
+	"bytes"
 	"fmt"
 
 	"layeh.com/radius/rfc2759"
@@ -58,7 +59,35 @@ func init() {
 		c.Res.Rule = "random 16-byte challenges (and other lengths for ChallengeHash), user names, passwords of 0..256 characters (ASCII and multi-byte UTF-8 incl. 4-byte code points and 86..256 multi-byte characters = more than 256 bytes, leading and inner byte-order marks, NUL, U+FFFD), all byte arguments passed as adjacent views of one buffer with spare capacity while the requests carry the original values, 24-byte and wrong-sized NT responses, MakeKey called again with the same NT response and another password, 16-byte and wrong-sized master keys, key lengths 8/16/20, both directions; every exported function of rfc2759/rfc3079 compared with the Go-composition model and with the from-the-RFC oracle running on the Gallina SHA-1/MD4/DES/UTF-16 (independent of Go's crypto packages). non-trivial = non-ASCII or multi-block password, or a refused size"
 		r := c.Rng.Fork()
 		n := c.N(120, 4000)
+		// every byte slice a function hands back is kept by the caller (a send key while the receive key is derived):
+		// later calls must not change it
+		type keptResult struct {
+			what string
+			ref  []byte
+			copy []byte
+		}
+		var kept []keptResult
+		keep := func(what string, b []byte) []byte {
+			if len(b) > 0 {
+				kept = append(kept, keptResult{what, b, append([]byte(nil), b...)})
+			}
+			return b
+		}
+		checkKept := func() {
+			for _, k := range kept {
+				if !bytes.Equal(k.ref, k.copy) {
+					c.Fail("spec", k.what, "result-overwritten", k.what+" returned "+hx(k.copy)+"; the caller kept it while making further calls", hx(k.ref), hx(k.copy), "a returned key or hash is the caller's: later calls do not change it")
+				}
+			}
+			if len(kept) > 40 {
+				kept = kept[len(kept)-40:]
+			}
+			c.TagOnly("results-kept")
+		}
 		for i := 0; i < n; i++ {
+			if i > 0 {
+				checkKept()
+			}
 			auth, peer := r.Bytes(16), r.Bytes(16)
 			user := r.Bytes(r.Intn(20))
 			switch r.Intn(5) {
@@ -100,6 +129,7 @@ func init() {
 				c.Add(T(Req{Name: "chash", Bs: [][]byte{peer, auth, user}}, (&Toks{}).B(rfc2759.ChallengeHash(vpeer, vauth, vuser)), "chash"))
 			}
 			nt, err := rfc2759.GenerateNTResponse(vauth, vpeer, vuser, vpw)
+			keep("GenerateNTResponse", nt)
 			if err != nil {
 				c.Fail("spec", "GenerateNTResponse", tag, hx(pw), err.Error(), "no error", "the UTF-16 encoder never fails")
 				continue
@@ -124,7 +154,7 @@ func init() {
 			// MPPE
 			u16, _ := rfc2759.ToUTF16(vpw)
 			hh := rfc2759.NTPasswordHash(rfc2759.NTPasswordHash(u16))
-			mk := rfc3079.GetMasterKey(hh, nt)
+			mk := keep(fmt.Sprintf("GetMasterKey(%x, %x)", hh, nt), rfc3079.GetMasterKey(hh, nt))
 			c.Add(T(Req{Name: "masterkey", Bs: [][]byte{hh, nt}}, (&Toks{}).B(mk), "masterkey"))
 			for _, send := range []bool{false, true} {
 				kl := r.Pick(8, 16, 20, 0)
@@ -136,6 +166,7 @@ func init() {
 				}
 				t := &Toks{}
 				k, err := rfc3079.GetAsymmetricStartKey(m, rfc3079.KeyLength(kl), send)
+				keep(fmt.Sprintf("GetAsymmetricStartKey(%x, %d, %v)", m, kl, send), k)
 				if err != nil {
 					t.E(8)
 				} else {
@@ -150,6 +181,7 @@ func init() {
 				}
 				t2 := &Toks{}
 				k2, err := rfc3079.MakeKey(ntr, vpw, send)
+				keep(fmt.Sprintf("MakeKey(%x, %x, %v)", ntr, pw, send), k2)
 				if err != nil {
 					t2.E(8)
 				} else {
@@ -169,8 +201,9 @@ func init() {
 				}
 			}
 		}
+		checkKept()
 		c.Trivial("ascii")
 		c.Flush()
-		c.RequireTags("ascii", "utf8", "utf8-long", "makekey-same-nt", "long", "chash", "utf16", "nthash", "des7", "masterkey", "startkey", "startkey-wrong-size", "makekey", "makekey-wrong-size")
+		c.RequireTags("results-kept", "ascii", "utf8", "utf8-long", "makekey-same-nt", "long", "chash", "utf16", "nthash", "des7", "masterkey", "startkey", "startkey-wrong-size", "makekey", "makekey-wrong-size")
 	}
 }
